@@ -132,6 +132,68 @@ pub fn run(reg: &dyn Registry, ctx: &Ctx) -> Outcome {
         }
         ctx.set("every_buffer_index_explorations", all_idx.len() as u64);
     }
+    // value-directed states for the non-native projections of the xoshiro family: carry-boundary
+    // operands of the scrambler (2^j - 1, 2^j, 2^w - 2^j, ... on both operands; multiplication-boundary
+    // operands for the single-operand scramblers); every call shape once from each
+    {
+        use refmodels::xoshiro::Kind;
+        let vd: Vec<Stats> = types
+            .par_iter()
+            .filter(|t| t.info().family == Family::Xoshiro)
+            .map(|ty| {
+                let info = ty.info();
+                let Some(kind) = Kind::from_name(info.name) else { return Stats::default() };
+                let w = info.word_bits;
+                let wb = w / 8;
+                let (a, b) = super::c01::scrambler_operands(kind);
+                let cw = crate::alphabet::carry_words(w);
+                let bg = crate::alphabet::bg_bytes(ctx.seed, 0x05CA + kind as u64, info.seed_len);
+                let mut seeds: Vec<Vec<u8>> = Vec::new();
+                match b {
+                    Some(b) => {
+                        for &x in &cw {
+                            for &y in &cw {
+                                let mut s = bg.clone();
+                                s[a * wb..(a + 1) * wb].copy_from_slice(&x.to_le_bytes()[..wb]);
+                                s[b * wb..(b + 1) * wb].copy_from_slice(&y.to_le_bytes()[..wb]);
+                                seeds.push(s);
+                            }
+                        }
+                    }
+                    None => {
+                        let mut xs = cw.clone();
+                        xs.extend(crate::alphabet::mult_boundary_words(w, 5, ctx.seed).into_iter().step_by(5));
+                        for x in xs {
+                            let mut s = bg.clone();
+                            s[a * wb..(a + 1) * wb].copy_from_slice(&x.to_le_bytes()[..wb]);
+                            seeds.push(s);
+                        }
+                    }
+                }
+                let alphabet = vec![Op::U32, Op::U64, Op::Fill(3), Op::Fill(5)];
+                let mut stats = Stats::default();
+                for seed in seeds {
+                    if seed.iter().all(|&x| x == 0) {
+                        continue;
+                    }
+                    let mk = SeedMaker { ty: *ty, seed };
+                    let native = histories::native_stream(&mk, 8);
+                    let own = if info.u32_proj == 'm' { Some(histories::own_u32_stream(&mk, 8)) } else { None };
+                    let stream = Stream { info, native: &native, own_u32: own.as_deref() };
+                    let mut out = Vec::new();
+                    histories::explore(&mk, &stream, &[], Pos::start(), &alphabet, 1, 2, &mut stats, &mut out);
+                    for v in out {
+                        ctx.violation(&format!("C05:{}", v.key), &format!("{} [start: {}]", v.what, mk.describe()), v.replay);
+                    }
+                }
+                stats
+            })
+            .collect();
+        for s in &vd {
+            add(&mut total, s);
+        }
+        ctx.set("value_directed_projection_starts", vd.iter().map(|s| s.states).sum());
+    }
     // deep stream positions: the same exploration started 1000 (and, thorough, 65536) blocks in
     {
         let thorough = ctx.tier == crate::evidence::Tier::Thorough;
@@ -211,6 +273,16 @@ pub fn run(reg: &dyn Registry, ctx: &Ctx) -> Outcome {
             let s = explore_maker(&mk, depth, ctx, "C05", &alphabet, words);
             add(&mut total, &s);
         }
+    }
+    // large round counts (what test_timer returns for a poor timer: 128; the top of the u8 range)
+    for rounds in [127u8, 128, 129, 255] {
+        let d = 2;
+        let words = 4 + d * 3 + 8;
+        let readings = jitter_env::benign_readings(ctx.seed ^ 0x05E0 ^ rounds as u64, rounds, words, 8);
+        let mk = JitterMaker { reg, readings, rounds, init_pool: None };
+        let alphabet = vec![Op::U32, Op::U64, Op::Fill(3), Op::Fill(4), Op::Fill(9)];
+        let s = explore_maker(&mk, d, ctx, "C05", &alphabet, words);
+        add(&mut total, &s);
     }
     // value-directed start states: the pool is chosen (hook + linear solve) so that the first collected
     // word has a special value: zero, a zero half, all ones, ...
